@@ -614,12 +614,58 @@ TExt ==
   /\ extids' = IF IsRows THEN extids \cup {(i - 1) + Meta.clock[i] : i \in 1..Len(Meta.clock)} ELSE extids
   /\ l' = l + 1 /\ UNCHANGED <<ovf, ixpre, firstlab>>
 
-TOtherCase ==
-  /\ l <= Len(Rec) /\ Rec[l].ev = "case"
-  /\ Rec[l].kind \notin {"truth3", "cmp", "arith", "order", "agg", "err", "part", "read", "idx", "write", "admin", "lim", "upd", "txn", "bread", "ext", "extadmin"}
+(***************************************************************************)
+(* C34: the C API against the Rust API.                                    *)
+(*  parity: the same read on identical databases through ndb_query (cres)  *)
+(*          and through prepare + execute_streaming (res): same outcome,   *)
+(*          same error category, same bag of rows (canonical texts).       *)
+(*  accept: a statement offered to ndb_query and to ndb_execute_write; the  *)
+(*          documented rule: the read entry accepts exactly the statements *)
+(*          without an update clause anywhere (FOREACH bodies, CALL        *)
+(*          subqueries and UNION branches included), the write entry       *)
+(*          exactly the others.  meta.tree = the clause tree.              *)
+(***************************************************************************)
+RECURSIVE ContainsWrite(_)
+ContainsWrite(q) ==
+  \E i \in 1..Len(q) :
+     \/ q[i].k \in {"create", "merge", "set", "remove", "delete", "foreach"}
+     \/ (q[i].k \in {"call", "union"} /\ ContainsWrite(q[i].q))
+TParity ==
+  /\ IsCase("parity")
+  /\ LET r == Rec[l].res c == Rec[l].cres IN
+     IF (r.out = "rows") # (c.out = "rows") THEN
+       Emit(Finding("C34", "one-api-fails", [rust |-> r.out, c |-> c.out, rust_err |-> r.err, c_err |-> c.err, query |-> Rec[l].query]))
+     ELSE IF r.out # "rows" THEN
+       (IF (r.errclass = "syntax") = (c.errclass = "syntax") THEN TRUE
+        ELSE Emit(Finding("C34", "error-category-differs", [rust |-> r.errclass, c |-> c.errclass, query |-> Rec[l].query])))
+     ELSE IF StrBagEq(r.rowstrs, c.rowstrs) THEN TRUE
+     ELSE Emit(Finding("C34", "rows-differ",
+                       [rust |-> IF Len(r.rowstrs) <= 4 THEN r.rowstrs ELSE SubSeq(r.rowstrs, 1, 4),
+                        c |-> IF Len(c.rowstrs) <= 4 THEN c.rowstrs ELSE SubSeq(c.rowstrs, 1, 4), query |-> Rec[l].query]))
+  /\ l' = l + 1 /\ UNCHANGED <<ovf, gr, ixpre, firstlab, extids>>
+TAccept ==
+  /\ IsCase("accept")
+  /\ LET w == ContainsWrite(Meta.tree)
+         rq == Rec[l].res_query rw == Rec[l].res_exec
+         unsupported == rq.errclass = "syntax" /\ rw.errclass = "syntax"
+         (* gate_refused: the entry point turned the statement away as being of the wrong kind; a failure while *)
+         (* executing an accepted statement is not an acceptance decision                                      *)
+         bad == IF unsupported THEN ""
+                ELSE IF w /\ ~rq.gate_refused THEN "read-entry-accepts-a-write"
+                ELSE IF ~w /\ rq.gate_refused THEN "read-entry-refuses-a-read"
+                ELSE IF ~w /\ ~rw.gate_refused THEN "write-entry-accepts-a-read"
+                ELSE IF w /\ rw.gate_refused THEN "write-entry-refuses-a-write"
+                ELSE ""
+     IN IF bad = "" THEN TRUE
+        ELSE Emit(Finding("C34", bad, [cls |-> Meta.cls, query_err |-> rq.err, exec_err |-> rw.err, query |-> Rec[l].query]))
   /\ l' = l + 1 /\ UNCHANGED <<ovf, gr, ixpre, firstlab, extids>>
 
-Next == TSession \/ TRead \/ TWrite \/ TLim \/ TUpd \/ TTxn \/ TNoGraph \/ TExt \/ TTruth3 \/ TCmp \/ TArith \/ TOrder \/ TAgg \/ TErr \/ TPart \/ TOtherCase
+TOtherCase ==
+  /\ l <= Len(Rec) /\ Rec[l].ev = "case"
+  /\ Rec[l].kind \notin {"truth3", "cmp", "arith", "order", "agg", "err", "part", "read", "idx", "write", "admin", "lim", "upd", "txn", "bread", "ext", "extadmin", "parity", "accept"}
+  /\ l' = l + 1 /\ UNCHANGED <<ovf, gr, ixpre, firstlab, extids>>
+
+Next == TSession \/ TRead \/ TWrite \/ TLim \/ TUpd \/ TTxn \/ TNoGraph \/ TExt \/ TParity \/ TAccept \/ TTruth3 \/ TCmp \/ TArith \/ TOrder \/ TAgg \/ TErr \/ TPart \/ TOtherCase
 Spec == Init /\ [][Next]_vars
 
 TraceAccepted ==
